@@ -62,6 +62,8 @@ def corpus(n):
 class World:
     def __init__(self, L0, use_vpc, delivery, cut=None, version=9, traffic=True):
         self.traffic = traffic
+        self.tls = delivery.endswith("+tls")
+        delivery = delivery.split("+")[0]
         self.net = stacks.new_net(None, servers=())
         self.use_vpc = use_vpc
         self.delivery = delivery
@@ -78,7 +80,8 @@ class World:
     def _construct(self):
         self.client = AWSElastiCacheHashClient(ENDPOINT, socket_module=self.net.module(), use_vpc=self.use_vpc,
                                                default_noreply=False, connect_timeout=1, timeout=1,
-                                               retry_attempts=0, dead_timeout=600)
+                                               retry_attempts=0, dead_timeout=600,
+                                               tls_context=self.net.tls() if self.tls else None)
 
     def _exchange(self, fn, cut):
         net = self.net
@@ -219,10 +222,10 @@ def _worker(job, chk):
                 L, probs = run_history(L0, use_vpc, delivery, h2, nkeys)
                 if L is None:
                     continue
-                if delivery == "whole" and "blip_first" not in h2:
+                if delivery.startswith("whole") and "blip_first" not in h2:
                     L_, p2 = run_history(L0, use_vpc, delivery, h2, nkeys, traffic=False)
                     chk.add()
-                    _report(chk, p2, use_vpc, "whole/no-traffic-before", n0, h2, None, None)
+                    _report(chk, p2, use_vpc, delivery + "/no-traffic-before", n0, h2, None, None)
                 transitions += 1
                 chk.add()
                 chk.outcome((use_vpc, delivery, n0, h2))
@@ -299,7 +302,9 @@ def run(chk):
     jobs = []
     for use_vpc in (True, False):
         for n0 in range(1, 7):
-            for delivery in ("whole", "byte"):
+            for delivery in ("whole", "byte", "whole+tls"):
+                if delivery.endswith("+tls") and n0 not in (2, 3):
+                    continue
                 jobs.append(("bfs", use_vpc, delivery, n0, chk.tier))
         for n0 in ((1, 3) if chk.tier == "quick" else (1, 2, 3, 6)):
             jobs.append(("cuts", use_vpc, "whole", n0, chk.tier))
